@@ -69,7 +69,7 @@ def run_input(desc, seed, res):
     from dali.exceptions import DALISequenceError
     r = rng(seed, "C13", "input", desc["rlo"])
     for resolution in range(desc["rlo"], desc["rhi"]):
-        if resolution <= 12:
+        if resolution <= (12 if desc["random"] < 1000 else 15):
             values = range(1 << resolution)
         else:
             top = (1 << resolution) - 1
